@@ -93,7 +93,7 @@ def generate(rng, tier):
                    "fam": rng.choice(["fits_sep", "fits_cel", "fits_rot"]), "steps": rng.randint(1, 3), "chain": []}
         else:
             yield {"mode": "chain", "shape": shape, "wseed": rng.randrange(10**6),
-                   "fam": rng.choice(["fits_sep", "fits_cel", "fits_rot", "fits_cd"]),
+                   "fam": rng.choice(["fits_sep", "fits_cel", "fits_rot", "fits_cd", "fits_crota"]),
                    "chain": gen_chain(rng, shape, rng.choice([0, 1, 1, 2, 2, 3, 4]))}
 
 
@@ -111,6 +111,22 @@ def make_base(case):
         w2.wcs.crval = w.wcs.crval; w2.wcs.crpix = w.wcs.crpix
         w2.wcs.cd = cd
         w2.wcs.cname = list(w.wcs.cname)
+        w2.wcs.set(); w2.array_shape = shape
+        return w2
+    if fam == "fits_crota":
+        # the legacy spelling of a rotated celestial pair: CDELTi + CROTA2, no PCi_j / CDi_j cards at all
+        w0 = W.make_fits(rng, shape, "fits_cel", True)
+        from astropy.wcs import WCS
+        n = w0.wcs.naxis
+        w2 = WCS(naxis=n)
+        w2.wcs.ctype = list(w0.wcs.ctype); w2.wcs.cunit = [str(x) for x in w0.wcs.cunit]
+        w2.wcs.crval = w0.wcs.crval; w2.wcs.crpix = w0.wcs.crpix; w2.wcs.cdelt = w0.wcs.get_cdelt()
+        w2.wcs.cname = list(w0.wcs.cname)
+        crota = [0.0] * n
+        lat = [i for i, c in enumerate(w2.wcs.ctype) if c.startswith("HPLT")]
+        if lat:
+            crota[lat[0]] = 30.0
+        w2.wcs.crota = crota
         w2.wcs.set(); w2.array_shape = shape
         return w2
     w = W.make_wcs(rng, shape, fam, True)
